@@ -367,7 +367,18 @@ func vPacketSummary(raw []byte) string {
 	}
 	p := &packet{}
 	if err := p.unmarshal(false, raw); err != nil {
-		return ck + " UNPARSABLE"
+		// the decoder insists on a CRC for INIT / COOKIE-ECHO: to still SEE what was emitted, decode a copy
+		// that carries the right checksum (the verdict on the emitted checksum field is already in `ck`)
+		fixed := append([]byte(nil), raw...)
+		if len(fixed) >= 12 {
+			fixed[8], fixed[9], fixed[10], fixed[11] = 0, 0, 0, 0
+			c := crc32.Checksum(fixed, crc32.MakeTable(crc32.Castagnoli))
+			fixed[8], fixed[9], fixed[10], fixed[11] = byte(c), byte(c>>8), byte(c>>16), byte(c>>24)
+		}
+		p = &packet{}
+		if err2 := p.unmarshal(false, fixed); err2 != nil {
+			return ck + " UNPARSABLE"
+		}
 	}
 	parts := []string{ck}
 	for _, c := range p.chunks {
